@@ -250,6 +250,13 @@ func GetMethodT(frame, targetClass, targetMethod string, isPrivate bool) *T {
 		return methodT
 	}
 
+	// a class defined in this namespace is not the Builtin class of the same name
+	if frame != "" && frame != "Builtin" &&
+		DefinedClassTable[DefinedClass{frame: frame, class: targetClass}] {
+
+		return nil
+	}
+
 	methodT, ok =
 		TFrame[methodTFrameKey("Builtin", targetClass, targetMethod, isPrivate)]
 
@@ -402,7 +409,12 @@ func GetClassMethodT(
 			isPrivate,
 		)]
 
-	if methodT == nil {
+	// a class defined in this namespace is not the Builtin class of the same name
+	isOwnClass :=
+		frame != "" && frame != "Builtin" &&
+			DefinedClassTable[DefinedClass{frame: frame, class: targetClass}]
+
+	if methodT == nil && !isOwnClass {
 		methodT =
 			TFrame[classMethodTFrameKey(
 				"Builtin",
